@@ -312,9 +312,11 @@ def enum_render_and_batches(seed):
     # batches: partition in order, other parameters unchanged, budget kept when a single value fits
     for n_before in (0, 3, 7, 9, 12):
         group = BugQuery.any_of(*[BugQuery.keywords(f"k{i}") for i in range(n_before)]) if n_before else BugQuery()
-        for count, vlen in ((1, 10), (5, 40), (60, 25), (200, 12)):
-            values = [f"cat-{i:03d}/pkg-" + "x" * vlen for i in range(count)]
-            for mk in (lambda: group & BugQuery.package_list_any(values), lambda: BugQuery.ids(range(1000, 1000 + count)) & group):
+        for count, vlen in ((1, 10), (5, 40), (60, 25), (200, 12), (400, -1)):
+            values = [f"cat-{i:03d}/pkg-" + "x" * vlen for i in range(count)] if vlen >= 0 else [str(i) for i in range(count)]
+            # the third form: a hand-built splittable criterion whose field name is shorter than the v<slot> parameter its values are sent under
+            for mk in (lambda: group & BugQuery.package_list_any(values), lambda: BugQuery.ids(range(1000, 1000 + count)) & group,
+                       lambda: group & BugQuery(charts=(Criterion("x", ops[0], tuple(values), splittable=True),))):
                 q = mk()
                 axis_vals = [str(v) for v in (values if q.charts and any(getattr(c, "splittable", False) for c in q.charts) else range(1000, 1000 + count))]
                 for budget in (700, 2500, 6000):
@@ -324,8 +326,9 @@ def enum_render_and_batches(seed):
                     fixed = None
                     for b in bs:
                         ps = b.params()
-                        vs = [v for k, v in ps if v in set(axis_vals)]
-                        rest = [(k, v) for k, v in ps if v not in set(axis_vals)]
+                        is_axis = lambda k, v: v in set(axis_vals) and (k == "id" or k[0] == "v")
+                        vs = [v for k, v in ps if is_axis(k, v)]
+                        rest = [(k, v) for k, v in ps if not is_axis(k, v)]
                         got.extend(vs)
                         if fixed is None:
                             fixed = rest
@@ -340,7 +343,7 @@ def enum_render_and_batches(seed):
                     if got != axis_vals:
                         bad({"n_before": n_before, "count": count, "budget": budget}, "batches do not partition the values in their original order")
     return {"name": "C37.render_and_batches.bounded_enumeration",
-            "bound": "400 random chart forests (depth <= 3, <= 3 children) rendered and read back; batches for 0-12 preceding conditions x 4 value sets x 3 budgets x 2 split axes",
+            "bound": "400 random chart forests (depth <= 3, <= 3 children) rendered and read back; batches for 0-12 preceding conditions x 5 value sets x 3 budgets x 3 split axes (package list, ids, a hand-built criterion with a one-letter field name)",
             "cases": cases, "failures": fails}
 
 
